@@ -265,8 +265,15 @@ func (w *Workspace) buildIndexFromResolvedLocked() {
 	w.index.SetFileIndex(w.rootJournalPath, BuildFileIndexFromJournal(w.rootJournalPath, w.resolved.Primary))
 	w.updateIncludeEdgesLocked(w.rootJournalPath, nil, w.index.FileIndex(w.rootJournalPath).Includes)
 
-	for path, journal := range w.resolved.Files {
-		w.index.SetFileIndex(path, BuildFileIndexFromJournal(path, journal))
+	// Index included files in path order so the result does not depend on map iteration order.
+	paths := make([]string, 0, len(w.resolved.Files))
+	for path := range w.resolved.Files {
+		paths = append(paths, path)
+	}
+	sort.Strings(paths)
+
+	for _, path := range paths {
+		w.index.SetFileIndex(path, BuildFileIndexFromJournal(path, w.resolved.Files[path]))
 		w.updateIncludeEdgesLocked(path, nil, w.index.FileIndex(path).Includes)
 	}
 }
